@@ -19,6 +19,19 @@ inconclusive (only "nothing ran at all" does).  The clock / PRNG of pysyncobj ar
 ones for the run (`queue_common.real_runtime`): earlier components of the same process leave virtual
 ones behind.
 
+Family N ("nested", also registered for C12): a REAL auto-tick cluster of 2 or 3 nodes (every node its own
+tick thread; the in-memory transport delivers a message on the RECEIVER's tick thread through
+`addOnTickCallback`).  Application threads submit commands that raise deterministically (`boom`) and
+commands that succeed (`add`) on the leader and on a follower; the CALLBACKS of those commands — they run
+on the submitting node's tick thread — issue further replicated calls with their own callbacks (depth
+1-2).  Monitors (C12 / C19 statements): every callback fires exactly once; after quiescence (no call
+outstanding, queues and callback tables empty, commit index = last applied = log end on every node,
+stable) all replicas hold the same applied sequence, every command that was reported SUCCESS — the ones
+issued from callbacks included — is in it exactly once on every replica; no exception escapes a tick
+thread.  A time bound missed without a state difference makes the round inconclusive, never a violation.
+Coverage floor: a replicated call issued on the tick thread inside the callback of a RAISING command, on
+the leader and on a follower.  For C12 only this family runs (a few seconds).
+
 Then it evaluates the statements of the theorems on what was observed — deterministic pass criteria only
 (no timing assertions):
   * every call id is applied at most once on every replica; applied exactly once (on every replica, after
@@ -31,13 +44,16 @@ Then it evaluates the statements of the theorems on what was observed — determ
 Bounded by ctx.budget_s.
 """
 import collections
+import functools
+import itertools
+import logging
 import sys
 import threading
 import time
 
 from harness.corr import queue_common as qc
 
-PROPERTIES = ["C19"]
+PROPERTIES = ["C19", "C12"]
 ORDER = 60
 
 
@@ -59,6 +75,19 @@ def build(so):
                     n += 1
                     self.tr[key[1]]._onMessageReceivedCallback(self.tr[key[0]].me, m)
             return n
+
+        def deliver_to(self, dst):
+            """drain the channels towards `dst` (called on dst's own tick thread)"""
+            for key in list(self.q.keys()):
+                if key[1] != dst:
+                    continue
+                q = self.q[key]
+                while q:
+                    try:
+                        m = q.popleft()
+                    except IndexError:
+                        break
+                    self.tr[dst]._onMessageReceivedCallback(self.tr[key[0]].me, m)
 
     class MemTransport(Transport):
         net = None
@@ -117,6 +146,11 @@ def build(so):
         def add_sync30(self, cid):
             self.applied.append(cid)
             return cid
+
+        @so.replicated
+        def boom(self, cid):
+            self.applied.append(cid)
+            raise ValueError("boom %d" % cid)
 
     def conf(**kw):
         base = dict(appendEntriesPeriod=0.002, raftMinTimeout=0.02, raftMaxTimeout=0.03, connectionTimeout=0.5,
@@ -266,6 +300,208 @@ def directed_round(so, parts, qsize, batch, deadline):
 
 MODES = ["nocb", "cb", "cb", "sync", "sync", "sync_kw", "sync_tiny", "sync_zero"]
 
+# ---------------------------------------------------------------------------------------------
+# family N: callbacks on the real auto-tick thread issue replicated calls
+# ---------------------------------------------------------------------------------------------
+CHAINS = [["boom", "add"], ["add", "add"], ["boom", "boom", "add"], ["add", "boom", "add"], ["boom"], ["add"],
+          ["boom", "add", "add"]]
+
+
+class _LogTrap(logging.Handler):
+    def __init__(self):
+        logging.Handler.__init__(self)
+        self.escaped = []
+
+    def emit(self, record):
+        try:
+            if "failed _onTick" in record.getMessage():
+                self.escaped.append(self.format(record)[-1200:])
+        except Exception:   # noqa
+            pass
+
+
+def nested_round(so, parts, n_nodes, batch, deadline):
+    Net, MemTransport, Obj, conf = parts
+    net = Net()
+
+    class T(MemTransport):
+        pass
+    T.net = net
+    names = ["n%d:1" % i for i in range(n_nodes)]
+    info = {"cfg": "N", "nodes": n_nodes, "batch": batch}
+    viol = []
+    cov = collections.Counter()
+    lg = logging.getLogger("pysyncobj.syncobj")
+    trap = _LogTrap()
+    old_prop = lg.propagate
+    lg.addHandler(trap)
+    lg.propagate = False           # the raising commands are logged with a traceback each: keep stderr clean
+    objs = []
+    calls = []
+    lock = threading.Lock()
+    outstanding = [0]
+    ids = itertools.count(1)
+    try:
+        for n in names:
+            objs.append(Obj(n, [x for x in names if x != n],
+                            conf(autoTick=True, commandsQueueSize=100000, appendEntriesUseBatch=batch,
+                                 raftMinTimeout=0.5, raftMaxTimeout=0.8, appendEntriesPeriod=0.02,
+                                 autoTickPeriod=0.005, connectionTimeout=3.0), T))
+        for n, o in zip(names, objs):
+            o.addOnTickCallback(functools.partial(net.deliver_to, n))
+        for o in objs:
+            net.tr[o.selfNode.id].connect_all()
+        t_end = min(deadline, now() + 20)
+        while now() < t_end:
+            if sum(1 for o in objs if o._isLeader()) == 1 and all(o._getLeader() is not None for o in objs):
+                break
+            nap(0.01)
+        leaders = [i for i, o in enumerate(objs) if o._isLeader()]
+        if len(leaders) != 1:
+            info["skipped"] = "no single leader within the time bound"
+            return info, viol, {}
+        L = leaders[0]
+        F = [i for i in range(n_nodes) if i != L][0]
+        info["leader"] = [L]
+
+        def issue(node, chain, level, parent_raised):
+            o = objs[node]
+            kind = chain[level]
+            cid = next(ids)
+            on_tick = threading.current_thread() is o._SyncObj__thread
+            rec = {"cid": cid, "kind": kind, "node": node, "level": level, "on_tick": on_tick,
+                   "parent_raised": parent_raised, "fired": []}
+            with lock:
+                calls.append(rec)
+                outstanding[0] += 1
+            if level > 0 and on_tick:
+                role = "leader" if o._isLeader() else "follower"
+                cov["nested_on_tick_%s" % role] += 1
+                if parent_raised:
+                    cov["nested_from_raising_cb_%s" % role] += 1
+
+            def cb(res, err):
+                try:
+                    first = not rec["fired"]
+                    raised = isinstance(res, Exception)
+                    rec["fired"].append(("exc" if raised else res, err))
+                    if first:
+                        if err == 0 and level + 1 < len(chain):
+                            issue(node, chain, level + 1, raised)
+                        with lock:
+                            outstanding[0] -= 1
+                except BaseException:   # noqa  (must not leak harness errors into the tick thread)
+                    import traceback
+                    rec["harness_error"] = traceback.format_exc()[-800:]
+            try:
+                getattr(o, kind)(cid, callback=cb)
+            except BaseException as e:   # noqa
+                rec["submit_error"] = repr(e)
+                with lock:
+                    outstanding[0] -= 1
+
+        # application thread: roots on the leader and on a follower, plain commands in between
+        for chain in CHAINS:
+            for node in (L, F):
+                issue(node, chain, 0, False)
+            nap(0.02)
+            issue(F, ["add"], 0, False)
+            issue(L, ["add"], 0, False)
+
+        def quiet_state():
+            with lock:
+                if outstanding[0] != 0:
+                    return None
+            st = []
+            for o in objs:
+                if len(o._SyncObj__commandsQueue._FastQueue__queue) or len(o._SyncObj__commandsWaitingCommit) \
+                        or len(o._SyncObj__commandsWaitingReply):
+                    return None
+                la, ci, end = o.raftLastApplied, o.raftCommitIndex, o._SyncObj__getCurrentLogIndex()
+                if not (la == ci == end):
+                    return None
+                st.append(la)
+            if any(x != st[0] for x in st):
+                return None
+            return st
+
+        quiet, seqs, last = 0, None, None
+        while now() < deadline:
+            nap(0.02)
+            st = quiet_state()
+            if st is None or st != last:
+                quiet, last = (1 if st is not None else 0), st
+                continue
+            quiet += 1
+            if quiet >= 4:
+                seqs = [list(o.applied) for o in objs]
+                if quiet_state() == st:          # nothing moved while the sequences were read
+                    break
+                seqs, quiet = None, 0
+        info["quiesced"] = seqs is not None
+        info["last_applied"] = last
+    finally:
+        for o in objs:
+            try:
+                o.destroy()
+            except Exception:   # noqa
+                pass
+        nap(0.05)
+        lg.removeHandler(trap)
+        lg.propagate = old_prop
+    # ---- monitors
+    if trap.escaped:
+        viol.append(("tick-thread:exception-escaped", trap.escaped[0]))
+    for rec in calls:
+        cov["calls"] += 1
+        cov["kind_" + rec["kind"]] += 1
+        cov["level_%d" % rec["level"]] += 1
+        if rec.get("harness_error") or rec.get("submit_error"):
+            viol.append(("decorator:unexpected-exception", "%r" % (rec,)))
+        if len(rec["fired"]) > 1:
+            viol.append(("queue.callback:fired-more-than-once", "cid %d (%s on node %d): %r"
+                         % (rec["cid"], rec["kind"], rec["node"], rec["fired"])))
+    if seqs is None:
+        info["timed_out"] = True               # no stable state within the bound: nothing to compare
+        return info, viol, cov
+    for rec in calls:
+        if len(rec["fired"]) != 1:
+            viol.append(("queue.callback:not-fired-exactly-once", "cid %d fired %r" % (rec["cid"], rec["fired"])))
+    ref = seqs[0]
+    for i, sq in enumerate(seqs):
+        c = collections.Counter(sq)
+        dup = [x for x, n in c.items() if n > 1]
+        if dup:
+            viol.append(("apply:command-applied-more-than-once", "replica %d applied %r twice" % (i, dup[:5])))
+        if sq != ref:
+            only_i = [x for x in sq if x not in set(ref)]
+            only_0 = [x for x in ref if x not in set(sq)]
+            viol.append(("apply:replicas-diverge",
+                         "all replicas quiet at lastApplied %r, yet replica %d holds %r that replica 0 lacks and lacks %r "
+                         "(calls: %r)" % (last, i, only_i[:6], only_0[:6],
+                                          [(r["cid"], r["kind"], "node%d" % r["node"], "tick" if r["on_tick"] else "app",
+                                            "after-raise" if r["parent_raised"] else "") for r in calls
+                                           if r["cid"] in set(only_i + only_0)][:6])))
+    for rec in calls:
+        if rec["fired"] and rec["fired"][0][1] == 0:
+            cov["told_success"] += 1
+            if rec["kind"] == "add" and rec["fired"][0][0] != rec["cid"]:
+                viol.append(("queue.callback:foreign-result", "cid %d got %r" % (rec["cid"], rec["fired"][0])))
+            if rec["kind"] == "boom" and rec["fired"][0][0] != "exc":
+                viol.append(("apply:raising-command-result-is-not-the-exception", "cid %d got %r" % (rec["cid"], rec["fired"][0])))
+            missing = [i for i, sq in enumerate(seqs) if rec["cid"] not in sq]
+            if missing:
+                viol.append(("apply:success-reported-but-not-applied-everywhere",
+                             "cid %d (%s, issued on node %d from the %s%s) reported SUCCESS, absent on replicas %r"
+                             % (rec["cid"], rec["kind"], rec["node"], "tick thread" if rec["on_tick"] else "application",
+                                ", in the callback of a raising command" if rec["parent_raised"] else "", missing)))
+        elif rec["fired"]:
+            cov["told_fail_%s" % rec["fired"][0][1]] += 1
+    cov["rounds_N_quiesced"] += 1
+    info["applied"] = len(ref)
+    return info, viol, cov
+
+
 
 def run_round(so, parts, rng, cfg, N, M, qsize, batch, deadline):
     Net, MemTransport, Obj, conf = parts
@@ -411,7 +647,9 @@ def evaluate(objs, outs_per_thread, leader, info):
 
 
 NEED = ["told_success", "told_fail_1", "sync_value", "sync_timeout", "sync_raised", "cb_fired",
-        "target_follower", "rounds_A", "rounds_B", "rounds_D"]
+        "target_follower", "rounds_A", "rounds_B", "rounds_D",
+        "rounds_N_quiesced", "nested_from_raising_cb_leader", "nested_from_raising_cb_follower"]
+NEED_C12 = ["rounds_N_quiesced", "nested_from_raising_cb_leader", "nested_from_raising_cb_follower"]
 
 
 def run(ctx):
@@ -424,36 +662,53 @@ def _run(ctx, so):
     t0 = now()
     parts = build(so)
     rng = ctx.rng("queue_threads")
+    only_nested = ctx.pid == "C12"           # C12 needs the auto-tick family only: a few seconds
+    need = NEED_C12 if only_nested else NEED
     budget = ctx.scale(10.0, 240.0)          # time spent when everything is reached early
     hard = ctx.scale(75.0, 420.0)            # bound for reaching every outcome class on a slow machine
+    if only_nested:
+        budget = ctx.scale(0.0, 30.0)
     res = {"cases": 0, "distinct": 0, "coverage": {}, "samples": [], "disagreements": [], "violations": []}
     cov = collections.Counter()
     old_si = sys.getswitchinterval()
     sys.setswitchinterval(1e-6)
-    plan = [("D", 1, True), ("D", 2, False)]
+    plan = [("N", 2, True), ("D", 1, True), ("D", 2, False), ("N", 3, False)]
     for qsize in (1, 2, 3, 100000):
         for cfg in ("A", "B"):
             plan.append((cfg, qsize, qsize != 2))
+    if only_nested:
+        plan = [("N", 2, True), ("N", 3, False)]
     try:
         rnd = 0
         while True:
             elapsed = now() - t0
-            reached = all(cov.get(k, 0) > 0 for k in NEED)
-            if elapsed >= hard or (elapsed >= budget and reached):
+            reached = all(cov.get(k, 0) > 0 for k in need)
+            if elapsed >= hard or (elapsed >= budget and reached and rnd >= (len(plan) if only_nested else 1)):
                 break
             cfg, qsize, batch = plan[rnd % len(plan)]
             if rnd >= len(plan):
                 batch = rng.random() < 0.6
-            if not reached and elapsed >= budget:
+                if cfg == "N" and reached:
+                    cfg, qsize = "A", 3          # one pair of nested rounds is enough once its floors are met
+            if not reached and elapsed >= budget and not only_nested:
                 # overtime: only the configurations that still have something to contribute
-                if cov.get("rounds_D", 0) == 0 or any(cov.get(k, 0) == 0 for k in NEED[:6]):
+                if any(cov.get(k, 0) == 0 for k in NEED_C12):
+                    cfg, qsize = "N", 2 + rnd % 2
+                elif cov.get("rounds_D", 0) == 0 or any(cov.get(k, 0) == 0 for k in NEED[:6]):
                     cfg, qsize = "D", 1
                 elif cov.get("target_follower", 0) == 0 or cov.get("rounds_B", 0) == 0:
                     cfg = "B"
                 else:
                     cfg = "A"
             deadline = min(t0 + hard + 5, now() + 30)
-            if cfg == "D":
+            if cfg == "N":
+                N, M = 1, 0
+                info, viol, c = nested_round(so, parts, qsize, batch, deadline)
+                c = collections.Counter(c)
+                c["mode_nested"] = c.pop("calls", 0)
+                if info.get("timed_out"):
+                    cov["rounds_N_timed_out"] += 1
+            elif cfg == "D":
                 N, M = 1, qsize + 6
                 info, viol, c = directed_round(so, parts, qsize, batch, deadline)
             else:
@@ -465,7 +720,8 @@ def _run(ctx, so):
             cov.update(c)
             if c:
                 cov["rounds_" + cfg] += 1
-                cov["rounds_q%s" % (qsize if qsize < 10 else "big")] += 1
+                if cfg != "N":
+                    cov["rounds_q%s" % (qsize if qsize < 10 else "big")] += 1
             if info.get("quiesced"):
                 cov["rounds_quiesced"] += 1
             if info.get("skipped"):
@@ -477,17 +733,40 @@ def _run(ctx, so):
             for sig, what in viol:
                 if len(res["violations"]) < 3 and sig not in [x["signature"] for x in res["violations"]]:
                     res["violations"].append({"signature": sig, "what": what,
-                                              "replay": {"kind": "threads", "round": info, "seed": ctx.seed,
+                                              "replay": {"kind": "threads-nested" if cfg == "N" else "threads",
+                                                         "round": info, "seed": ctx.seed,
                                                          "note": "real-thread schedule: re-run the component with the same seed; "
                                                                  "the interleaving itself is chosen by the OS"}})
     finally:
         sys.setswitchinterval(old_si)
     res["distinct"] = res["cases"]       # every call has its own id and its own position in a real schedule
-    missed = [k for k in NEED if cov.get(k, 0) == 0]
+    missed = [k for k in need if cov.get(k, 0) == 0]
     res["coverage"] = dict(cov)
     res["coverage"]["outcome_classes_not_reached"] = missed
     res["wall_s"] = round(now() - t0, 2)
     res["notes"] = "VALIDATION of the model's atomicity assumptions with real threads; not a proof"
     if res["cases"] == 0:
         res["inconclusive"] = "no round produced a single call (no leader was ever elected within %.0f s)" % hard
+    elif only_nested and cov.get("rounds_N_quiesced", 0) == 0 and not res["violations"]:
+        res["inconclusive"] = "no auto-tick round reached a stable state within %.0f s (nothing could be compared)" % hard
     return res
+
+
+def replay(ctx, violation):
+    """Re-runs the family the violation came from (the scenario of family N is fixed; the OS still picks
+    the interleaving) and says whether the same signature shows again."""
+    so = qc.load(ctx)
+    r = violation.get("replay", {})
+    if r.get("kind") != "threads-nested":
+        return {"violated": None, "note": "free-running real-thread round: re-run `./check` with the same seed", "round": r}
+    with qc.real_runtime(so):
+        parts = build(so)
+        old_si = sys.getswitchinterval()
+        sys.setswitchinterval(1e-6)
+        try:
+            rd = r.get("round", {})
+            info, viol, cov = nested_round(so, parts, rd.get("nodes", 2), rd.get("batch", True), now() + 40)
+        finally:
+            sys.setswitchinterval(old_si)
+    same = [v for v in viol if v[0] == violation.get("signature")]
+    return {"violated": bool(same), "violations": viol[:5], "round": info, "coverage": dict(cov)}
